@@ -12,6 +12,12 @@
 // right shift, IEEE single floats, C-style logical operators"), never from the code.
 
 use super::*;
+// vacuity guards: a cover that must be SATISFIED.  Compiled out (env VERIF_NO_COVER, set only by the
+// engine's counterexample re-run) because Kani's concrete playback emits a single test per harness and
+// prefers a satisfied cover over the failed assertion.
+macro_rules! vcover {
+    ($($t:tt)*) => { if option_env!("VERIF_NO_COVER").is_none() { kani::cover!($($t)*); } };
+}
 use crate::ast::{BinOpKind as B, UnOpKind as U, AssignOpKind as A};
 use crate::value::ScalarValue as V;
 
@@ -176,7 +182,7 @@ fn c11_int_div_rem_equation_small() {
     let b: i32 = kani::any();
     kani::assume(b != 0 && b >= -4096 && b <= 4096);
     kani::assume(a >= -4096 && a <= 4096);
-    kani::cover!(a == -4096 && b == 4095);
+    vcover!(a == -4096 && b == 4095);
     let q = int_result(B::Div, a, b).expect("a / b has a value when b != 0");
     let r = int_result(B::Rem, a, b).expect("a % b has a value when b != 0");
     assert!((q as i64) * (b as i64) + (r as i64) == a as i64);
